@@ -22,6 +22,7 @@ structure St where
   ct : ChanType := {}
   csv : Array Nat := #[5, 4]     -- csv delay of A, B
   thaw : Nat := 0
+  initA : Bool := true
   noamt : Bool := false
   lines : Nat := 0
   cases : Nat := 0
@@ -81,7 +82,7 @@ def handleSpend (s : St) (ws : List String) : IO St := do
     if kvN ws "rec_amt" != kvN ws "act_amt" || kvS ws "pk" != "1" then
       s ← monitor s "index-amount" s!"ctx={ctxS} kind={kind} rec_idx={kvS ws "rec_idx"} rec_amt={kvS ws "rec_amt"} act_amt={kvS ws "act_amt"} pk={kvS ws "pk"}"
     if engine != "ok" then
-      let leaseTag := if s.ct.lease && s.thaw > 0 && ctxField ctxS "v" == "A"
+      let leaseTag := if s.ct.lease && s.thaw > 0 && ((nodeOf (ctxField ctxS "v") == 0) == s.initA)
         && kind == "toRemote" && kvS ws "wt" == "CommitmentToRemoteConfirmed"
         && engine == "fail:ErrUnsatisfiedLockTime" && lock == 0
         && ((kvS ws "ws").splitOn "OP_CHECKLOCKTIMEVERIFY").length > 1
@@ -93,7 +94,7 @@ def handleSpend (s : St) (ws : List String) : IO St := do
   let some script0 := parseScript (kvS ws "ws") | mismatch s s!"unparsed script {kvS ws "ws"}"
   let some k := kindOf kind | mismatch s s!"unknown kind {kind}"
   let v := nodeOf (ctxField ctxS "v")
-  let r : Revoked := { ct := s.ct, victim := v, victimInitiator := v == 0,
+  let r : Revoked := { ct := s.ct, victim := v, victimInitiator := (v == 0) == s.initA,
                        csv := s.csv[1 - v]!, leaseExpiry := s.thaw }
   if spk == "p2tr" || s.ct.taproot then
     -- simple-taproot: script path = tapscript interpreter, key path = signer is the internal key
@@ -101,7 +102,7 @@ def handleSpend (s : St) (ws : List String) : IO St := do
     let cx : Ctx := { version := ver, sequence := seq, lockTime := lock, tapscript := true }
     let mv := (if keyPath then
         match wit with
-        | [.sig sk _ true] => sk == r.revocationKey
+        | [.sig sk ht .final] => sk == r.revocationKey && sigHashDefined true ht
         | _ => false
       else run cx script0 wit) && kvS ws "pk" == "1"
     if mv != ev then
@@ -120,7 +121,7 @@ def handleSpend (s : St) (ws : List String) : IO St := do
         s ← mismatch s s!"txshape ctx={ctxS} kind={kind} impl=ver{ver},seq{seq},lock{lock} model=ver{mc.version},seq{mc.sequence},lock{mc.lockTime}"
       if kvS ws "wt" != r.witnessTypeName k then
         s ← mismatch s s!"witness type ctx={ctxS} kind={kind} impl={kvS ws "wt"} model={r.witnessTypeName k}"
-      if r.tapJusticeValid k != ev then
+      if !keyPath && r.tapJusticeValid k != ev then
         s ← mismatch s s!"tapJusticeValid ctx={ctxS} kind={kind} model={r.tapJusticeValid k} engine={engine}"
       s := { s with structChecked := s.structChecked + 1 }
     return s
@@ -138,7 +139,7 @@ def handleSpend (s : St) (ws : List String) : IO St := do
     -- structure: the code's script / witness / sequence are the model's
     if spk != "p2wkh" && script0 != modelScript then
       s ← mismatch s s!"script ctx={ctxS} kind={kind} impl={kvS ws "ws"} model={repr modelScript}"
-    let mw := r.witness k (.sig (r.signDesc k).signer 1 true)
+    let mw := r.witness k (.sig (r.signDesc k).signer sigHashAll .final)
     if wit != mw then
       s ← mismatch s s!"witness ctx={ctxS} kind={kind} impl={kvS ws "wit"} model={repr mw}"
     let mc := r.ctx k
@@ -172,7 +173,7 @@ def step (s : St) (line : String) : IO St := do
                                taproot := b "taproot",
                                taprootFinal := b "taprootfinal" || kvS rest "type" == "taprootfinal" },
                        csv := #[(kvNat? rest "csvA").getD 5, (kvNat? rest "csvB").getD 4],
-                       thaw := kvN rest "thaw", noamt := b "noamt",
+                       thaw := kvN rest "thaw", initA := kvS rest "initiator" != "B", noamt := b "noamt",
                        cases := s.cases + 1 }
     -- honest peers never reject each other's messages; if they do the history is cut short
     let s ← if b "dead" then mismatch s "history aborted: a peer rejected an honest message" else pure s
@@ -285,14 +286,14 @@ def step (s : St) (line : String) : IO St := do
     if kvN rest "recok" != 1 then
       s ← monitor s "index-amount" s!"ctx={ctxS} variant={kvS rest "variant"} kind={kind} idx={kvS rest "idx"} recorded output differs from the real one"
     if engine != "ok" then
-      let leaseTag := if s.ct.lease && s.thaw > 0 && ctxField ctxS "v" == "A"
+      let leaseTag := if s.ct.lease && s.thaw > 0 && ((nodeOf (ctxField ctxS "v") == 0) == s.initA)
         && kind == "toRemote" && kvS rest "wt" == "CommitmentToRemoteConfirmed"
         && engine == "fail:ErrUnsatisfiedLockTime" && lock == 0 then " lease_cltv_locktime0=1" else ""
       s ← monitor s "justice-valid" s!"ctx={ctxS} variant={kvS rest "variant"} kind={kind} wt={kvS rest "wt"} seq={seq} lock={lock} engine={engine}{leaseTag}"
     -- (X) witness type table and transaction shape of the real breach arbitrator
     let some k := kindOf kind | mismatch s s!"unknown kind {kind}"
     let v := nodeOf (ctxField ctxS "v")
-    let r : Revoked := { ct := s.ct, victim := v, victimInitiator := v == 0,
+    let r : Revoked := { ct := s.ct, victim := v, victimInitiator := (v == 0) == s.initA,
                          csv := s.csv[1 - v]!, leaseExpiry := s.thaw }
     if kvS rest "wt" != r.witnessTypeName k then
       s ← mismatch s s!"witness type ctx={ctxS} kind={kind} impl={kvS rest "wt"} model={r.witnessTypeName k}"
@@ -301,9 +302,11 @@ def step (s : St) (line : String) : IO St := do
       s ← mismatch s s!"txshape ctx={ctxS} kind={kind} impl=ver{ver},seq{seq},lock{lock} model=ver{mc.version},seq{mc.sequence},lock{mc.lockTime}"
     if let some ev := engineVerdict engine then
       if s.ct.taproot then
-        if r.tapJusticeValid k != ev then
-          s ← mismatch s s!"tapJusticeValid ctx={ctxS} kind={kind} model={r.tapJusticeValid k} engine={engine}"
-        s := { s with modelChecked := s.modelChecked + 1 }
+        -- key-path spends (HTLC / second level) are outside the symbolic model
+        if (r.tapScript k).isSome then
+          if r.tapJusticeValid k != ev then
+            s ← mismatch s s!"tapJusticeValid ctx={ctxS} kind={kind} model={r.tapJusticeValid k} engine={engine}"
+          s := { s with modelChecked := s.modelChecked + 1 }
       else
         -- the model's verdict for this configuration; HTLC parameters do not influence it
         let jv := r.justiceValid k 700100 (.h160 (.pre 0))
